@@ -5,7 +5,7 @@ from pyvc.values import (V, Int, Str, Bool, SeqV, NONE, ABSENT, TRUE, FALSE, tru
                          mk_bool, mk_str, mk_int)
 from specs.ev import EV, EVX, EV3, EVX3, D, okD, okN
 
-EVAL_RAISES = ('KeyError', '$OtherException')
+EVAL_RAISES = ('KeyError', 'RuntimeError', '$OtherException')
 
 
 def args5(cx):
